@@ -27,12 +27,17 @@ US_H, US_M, US_S, US_MS = 3600000000, 60000000, 1000000, 1000
 def run(ctx, report):
     folder = ctx.memo("folder", lambda: Folder(ctx.index))
     ev = lambda: SymEvaluator(ctx.index, folder)
-    report.section("SRT", srt_site, ctx, report, ev)
-    report.section("WebVTT", webvtt_site, ctx, report, ev, folder)
-    report.section("DFXP", dfxp_site, ctx, report, ev, folder)
+    # the symbolic forms (all values, one outcome per path) are read off ONE spelling of each converter; when the evaluator
+    # does not support a construct, the conversion is still decided on every spelling of the format's stamp grammar by the
+    # lexical-forms fold below (and, for SAMI, by the generated documents), so the part records an INFO instead of refusing
+    lex = "R-DENOTES on an enumeration of every spelling of the format's time expressions (timestamp_fold) and R-SEGMENT on generated documents"
+    report.structural_section("SRT (symbolic form)", lex, srt_site, ctx, report, ev)
+    report.structural_section("WebVTT (symbolic form)", lex, webvtt_site, ctx, report, ev, folder)
+    report.structural_section("DFXP (symbolic form)", lex, dfxp_site, ctx, report, ev, folder)
     report.section("DFXP fraction digits", fraction_digits_section, ctx, report, ev, folder)
-    report.section("MicroDVD", microdvd_site, ctx, report, ev, folder)
-    report.section("SAMI", sami_site, ctx, report, ev, folder)
+    report.structural_section("MicroDVD (symbolic form)", lex, microdvd_site, ctx, report, ev, folder)
+    report.structural_section("SAMI (symbolic form)", "R-DENOTES / R-SEGMENT on the generated SAMI documents (sami_reader_fold)",
+                              sami_site, ctx, report, ev, folder)
     report.section("append-order", append_order, ctx, report)
     report.section("Caption guards", caption_guards, ctx, report)
     from . import timestamp_fold
@@ -52,7 +57,7 @@ def run(ctx, report):
         "text": ("R-SEGMENT", "4", "SRT: each caption holds the text lines of its own cue"),
     })
     n_sites = report.counters.get("conversion_sites", 0)
-    if n_sites < 10 and not report.analysis_errors:
+    if n_sites < 10 and not report.analysis_errors and not any(i.rule == "R-STRUCTURE" for i in report.instances):
         raise AnalysisError(f"only {n_sites} time-conversion sites analysed (floor 10)")
     report.not_decided += [
         "that splitlines / BeautifulSoup find_all / select deliver the cues the document contains",
